@@ -16,6 +16,8 @@ pub use process::{Process, StatementBatch, Task, TaskLifeCycle};
 pub use runtime::Runtime;
 pub use scheduler::Scheduler;
 pub use state::TaskState;
+#[cfg(feature = "verif")]
+pub(crate) use queue::{Queue as VerifQueue, Signal as VerifSignal};
 
 #[allow(unused_imports)]
 pub use tree::{Node, NodeContent, NodeData, NodeKind, NodeTree};
